@@ -116,6 +116,15 @@ def execute_session(case: dict) -> dict:
             tol = 3e-4 if not any(e['op'] == 'I' for e in case['hist']) else 2e-3
             out['ok'], out['err'] = _close(M, want, tol)
             out['sizes_ok'] = (int(r.out_size()), int(r.in_size())) == (want.shape[0], want.shape[1])
+        # every earlier object must still denote its own meaning: operations never mutate their operands
+        for k, obj in enumerate(heap[:-1]):
+            if obj is None or case['errs'][k]:
+                continue
+            okk, _ = _close(terms.dense_of(obj), terms.mat_to_float(case['dens'][k]), 2e-3)
+            if not okk:
+                out['ok'] = False
+                out['mutated_object'] = k + 1
+                break
     except Exception as exc:
         out['apply_raised'] = f'{type(exc).__name__}: {str(exc)[:160]}'
     return out
@@ -218,7 +227,8 @@ def judge(cases, results, verd, mode):
         elif 'apply_raised' in r:
             verd.report(f'apply_raised:{label}', 'result_cannot_be_applied', c, r)
         elif not r.get('ok', True):
-            verd.report(f'matrix:{label}', 'matrix', c, r)
+            clause = 'operand_mutated' if 'mutated_object' in r else 'matrix'
+            verd.report(f'{clause}:{label}', clause, c, r)
         elif not r.get('sizes_ok', True):
             verd.report(f'sizes:{label}', 'structures', c, r)
         else:
